@@ -195,6 +195,12 @@ class Algebra:
                 return {("COUNT", R): 1}
             if nm == "builtins.int" and args:
                 return self.red(args[0], d)
+            if nm in ("functools.reduce", "numpy.prod", "math.prod") and args:
+                # the product of ALL extents of an array / index: rows x the extents of every further axis
+                shp = args[1] if nm == "functools.reduce" and len(args) > 1 else args[0]
+                is_mul = nm != "functools.reduce" or (tm.dotted(args[0]) or "").endswith("mul")
+                if is_mul and shp.op == "attr" and shp.args[1] == "shape":
+                    return {("SIZE", "ALL"): 1}
             raise Unknown("reducer %s" % nm)
         if t.op == "sub" and t.args[0].op == "attr" and t.args[0].args[1] == "shape" and tm.is_const(t.args[1], 0):
             # X.shape[0]: number of rows
